@@ -499,3 +499,7 @@ Section Sigmoid.
   Lemma sigmoid_fortran_elementwise xs : sigmoid_fortran_vec E xs = map (sigmoid_base E) xs.
   Proof. reflexivity. Qed.
 End Sigmoid.
+
+Lemma roll_net_backend_independent b a k g n1 n2 n3 x z :
+  roll_net_deriv (roll_of b) a k g n1 n2 n3 x z = roll_net_deriv roll a k g n1 n2 n3 x z.
+Proof. destruct b; try reflexivity. unfold roll_net_deriv, roll_of. now rewrite !cshift_neg_roll. Qed.
